@@ -464,7 +464,9 @@ Val evalExpr(const ExprP &e, const LeafFn &leaf)
         }
         double qv = a.v / b.v;
         double qe = a.e / std::fabs(b.v) + std::fabs(qv) * b.e / std::fabs(b.v);
-        if ((qe > 0.0 && std::fabs(qv - std::round(qv)) <= 2.0 * qe + 1e-9) || std::fabs(qv) > 1e9) {
+        // (also when both operands are exact here: the generated code may read them through a units conversion, and one
+        // ulp decides on which side of the step an exactly integral ratio falls)
+        if (std::fabs(qv - std::round(qv)) <= 2.0 * qe + 1e-9 || std::fabs(qv) > 1e9) {
             return Val::bad("rem at a step");
         }
         return fin(std::fmod(a.v, b.v), a.e + std::fabs(std::trunc(qv)) * b.e);
